@@ -112,7 +112,15 @@ func (r *Result) Sample(v any, max int) {
 
 // Fail records a mismatch (at most 50 are kept).
 func (r *Result) Fail(m Mismatch) {
-	if len(r.Mismatches) < 50 {
+	// capped per kind, so that a flood of correspondence differences from an early part of a suite cannot
+	// crowd out a failing input found by a later part
+	n := 0
+	for i := range r.Mismatches {
+		if r.Mismatches[i].Kind == m.Kind {
+			n++
+		}
+	}
+	if n < 30 {
 		r.Mismatches = append(r.Mismatches, m)
 	}
 }
